@@ -257,10 +257,8 @@ def pop_model(rec, kind):
     cfg = POP[kind]
     q = 'chi._population_models.%s.' % cfg['cls']
     m = getattr(chi_sym, cfg['cls'])(n_dim=1, **cfg['kw'])
-    m._n_dim = S(d)
-    m._n_hierarchical_dim = S(d)
-    m._n_parameters = 2 * S(d)
-    m._n_ids = S(ns)
+    from contracts.families import generalise
+    generalise(m, {'_n_dim': S(d), '_n_hierarchical_dim': S(d), '_n_parameters': 2 * S(d), '_n_ids': S(ns)}, [('n_dim', S(d)), ('n_parameters', 2 * S(d))])
     r0 = sp.Symbol('_r0', integer=True)
     req = [d >= 1, ns >= 1, QFact((r0,), sp.Implies(sp.And(r0 >= 0, r0 < d), F[d + r0] > 0))]
     flat = T((2 * d,), lambda ix: F[ix[0]])
@@ -324,8 +322,8 @@ def pooled_hetero(rec):
     chi_sym = loader.load_shadow()
     # pooled: constant
     m = chi_sym.PooledModel(n_dim=1)
-    m._n_dim = S(d)
-    m._n_parameters = S(d)
+    from contracts.families import generalise
+    generalise(m, {'_n_dim': S(d), '_n_parameters': S(d)}, [('n_dim', S(d)), ('n_parameters', S(d))])
     flat = T((d,), lambda ix: F[ix[0]])
     funcs = ['chi._population_models.PooledModel.sample']
     paths = explore(lambda: m.sample(flat, n_samples=S(ns)), [d >= 1, ns >= 1])
@@ -342,9 +340,7 @@ def pooled_hetero(rec):
                         (k, j), inst, lambda env, m_: real.PooledModel(n_dim=int(env[d])).sample(np.array(env['F']), n_samples=50)[:, int(env[j])], (k, j))
     # heterogeneous: every sample row is the parameter row of one uniformly chosen individual
     h = chi_sym.HeterogeneousModel(n_dim=1)
-    h._n_dim = S(d)
-    h._n_ids = S(N)
-    h._n_parameters = S(N * d)
+    generalise(h, {'_n_dim': S(d), '_n_ids': S(N), '_n_parameters': S(N * d)}, [('n_dim', S(d)), ('n_parameters', S(N * d))])
     flat = T((N * d,), lambda ix: F[ix[0]])
     funcs = ['chi._population_models.HeterogeneousModel.sample']
 
@@ -392,8 +388,8 @@ def moments(rec):
     }
     for cls, (mean_spec, std_spec) in table.items():
         m = getattr(chi_sym, cls)(n_dim=1)
-        m._n_dim = S(d)
-        m._n_parameters = 2 * S(d)
+        from contracts.families import generalise
+        generalise(m, {'_n_dim': S(d), '_n_parameters': 2 * S(d)}, [('n_dim', S(d)), ('n_parameters', 2 * S(d))])
         funcs = ['chi._population_models.%s.get_mean_and_std' % cls]
         paths = explore(lambda: m.get_mean_and_std(flat), req)
         rets = [(c, r[1]) for c, r, _ in paths if r[0] == 'ret']
